@@ -160,11 +160,15 @@ func c11Run(r *rt.Rec, rng *rand.Rand, n int) {
 			continue
 		}
 		// the same binding aggregated twice
-		if rng.Intn(4) == 0 {
+		if sel := rng.Intn(6); sel < 2 {
 			a := aggs[0]
 			op2 := "count"
 			if a.op == "count" {
 				op2 = "countd"
+			}
+			if sel == 1 {
+				// the very same aggregate under a second alias
+				op2 = a.op
 			}
 			a2 := agg{op2, a.in, "?a9"}
 			aggs = append(aggs, a2)
@@ -469,7 +473,7 @@ func init() {
 	register(&rt.Check{
 		ID:    "C11",
 		Level: "exploration",
-		Rule: "dense random data with int64 and float64 facts x 1-2 clause patterns x aggregate queries: 1-2 grouping bindings or aliases (columns mixing nodes, predicates, literals of several types), any mix of count / count(distinct) / sum projections (also the same binding aggregated twice), shuffled projection and GROUP BY order, patterns without solutions, two grouping columns whose values contain separator-like text ((x+sep+y, z) against (x, y+sep+z)), the grouped query again with LIMIT n (min(n, groups) unchanged group rows); " +
+		Rule: "dense random data with int64 and float64 facts x 1-2 clause patterns x aggregate queries: 1-2 grouping bindings or aliases (columns mixing nodes, predicates, literals of several types), any mix of count / count(distinct) / sum projections (also the same binding aggregated twice, by another or by the very same aggregate under a second alias), shuffled projection and GROUP BY order, patterns without solutions, two grouping columns whose values contain separator-like text ((x+sep+y, z) against (x, y+sep+z)), the grouped query again with LIMIT n (min(n, groups) unchanged group rows); " +
 			"oracle, decoupled from C03: the grouped result is compared with a reference grouping of the rows the real engine returns for the same pattern without GROUP BY (group key = canonical values; count = group size; distinct = distinct canonical values; sum in int64 / float64 arithmetic with a relative tolerance); exactly one row per group; empty pattern => empty table, no error; non-trivial = >=2 groups, one of size >=2, and a mixed-kind key column or a duplicate value inside a group; distinct by statement text",
 		Assume: []string{"sum is only generated over bindings whose values are all int64 or all float64", "the ungrouped SELECT of the same pattern is the input of the reference grouping (C03 ties it to the data)"},
 		Floor:  100,
